@@ -45,4 +45,28 @@ TEXT = {
         "level_note": "Partial: JSON text, Ccy/NamedCal string handling are not covered (listed as uncovered). Assumes the chrono shim; preconditions are exactly: results stay in chrono's range and an eligible day exists in the search direction.",
         "design_ref": "DESIGN.md §7 C20",
     },
+    "C17": {
+        "technique": "Verus contracts on the extracted gradient1 / gradient2 / gradient1_manifold bodies (nested loop invariants) over the by-name view",
+        "level_text": "Proof: gradient1, gradient2 and gradient1_manifold (default methods of traits Gradient1/Gradient2) are extracted each run and verified for every dual number (any stored order of names) and every requested name list: result entry i is the derivative for the i-th requested distinct name, 0 for names the number does not carry; gradient2 entry (i, j) is twice the stored half-Hessian of the name pair; manifold entry i has value = first derivative, own gradient = Hessian row, zero own Hessian. Both the shortcut path (equal name lists) and the lookup path are covered.",
+        "level_note": "Assumes the R64/ndarray/IndexSet shims. A genuine defect found by this check (manifold entries for absent names had gradient ones) was repaired in /repo (fix: c67a88f).",
+        "design_ref": "DESIGN.md §7 C17",
+    },
+    "C01": {
+        "technique": "Verus postconditions (textbook AD rule per operator: value, gradient per name) on every extracted first-order operator body of dual_ops/{add,sub,mul,div,neg,pow,math_funcs}.rs",
+        "level_text": "Proof: each operator body for Dual (and f64 on either side) is extracted from the impl_op*! macro / trait impl each run and verified against the rule val = f, grad[n] = f_a*grad(a)[n] + f_b*grad(b)[n] for every variable name n, every layout of the operands' variable lists (shared, equal, subset, superset, different) and all real values in the rule's domain; float operands are the same rule with a constant.",
+        "level_note": "Real-number model of f64; transcendental functions uninterpreted with the derivative facts as oracle; iterator/ndarray/IndexSet shims; auto_ops forwarders regenerated.",
+        "design_ref": "DESIGN.md §7 C01/C02",
+    },
+    "C02": {
+        "technique": "Verus postconditions (second-order rule on the stored half-Hessian per name pair) on every extracted Dual2 operator body",
+        "level_text": "Proof: each Dual2 operator body (add, sub, mul, div, neg, pow, exp, log, norm_cdf, inv_norm_cdf, f64 mixes) and the outer product helper fouter11_ are extracted each run and verified against hess2(r)[n,k] = f_a*hess2(a)[n,k] + f_b*hess2(b)[n,k] + (f_aa ga_n ga_k + f_ab (ga_n gb_k + ga_k gb_n) + f_bb gb_n gb_k)/2 together with the first-order rule, for all names n, k and all operand layouts.",
+        "level_note": "As C01. The Hessian read back by gradient2 is 2*hess2 (C17), symmetric whenever the inputs' stored half-Hessians are.",
+        "design_ref": "DESIGN.md §7 C01/C02",
+    },
+    "C03": {
+        "technique": "Verus contracts on vars_cmp, to_new_vars (Dual, Dual2), to_union_vars, to_combined_vars, PartialEq and on every binary operator, all stated over the name->derivative view",
+        "level_text": "Proof: the five-way classification is verified to be exact for all duplicate-free name sequences; re-layout by name lookup preserves value/gradient/Hessian per name; union alignment yields one shared list carrying exactly the union of names; every binary operator contract is stated on views only, so its result cannot depend on order, sharing or zero-derivative extras; == is equality of views (missing = zero).",
+        "level_note": "As C01; caller-supplied `state` hints must be truthful (checked at every call site in the extracted code).",
+        "design_ref": "DESIGN.md §7 C03",
+    },
 }
